@@ -131,20 +131,39 @@ Theorem C09_return_prefix_is_arc4 :
 Proof. exact return_prefix_value. Qed.
 Print Assumptions C09_return_prefix_is_arc4.
 
-(* CONTRACT.  For every list of registered methods and every hash function: the contract lists exactly
-   the registered methods in order with their names, argument type strings and return type string; the
-   selector a client computes from an entry (first 4 bytes of the hash of name(args)returns) is the one
-   the approval program compares ApplicationArgs[0] with; and that is the ARC-4 selector. *)
-Theorem C09_contract_selectors_agree :
+(* CONTRACT (partial: registrations whose registered name is the subroutine's own name — the decorator
+   form, or add_method_handler without a different overriding_name).  For every such list of registered
+   methods and every hash function: the contract lists exactly the registered methods in order with their
+   names, argument type strings and return type string; the selector a client computes from an entry
+   (first 4 bytes of the hash of name(args)returns) is the one the approval program compares
+   ApplicationArgs[0] with; and that is the ARC-4 selector.
+   MISSING for the full statement: registrations with a different overriding_name — there it is false,
+   see C09_contract_name_override_refuted (known finding `contract-ignores-overriding-name`). *)
+Theorem C09_contract_selectors_agree_partial :
   forall (hash : string -> bytes) registered,
-    contract_methods registered = map spec_of registered /\
-    map ms_name (contract_methods registered) = map s_name registered /\
-    map ms_args (contract_methods registered) = map (fun s => map type_str (s_params s)) registered /\
-    map ms_returns (contract_methods registered) = map (fun s => ret_str type_str (s_ret s)) registered /\
+    forallb same_name registered = true ->
+    map ms_name (contract_methods registered) = map reg_name registered /\
+    map ms_args (contract_methods registered) = map (fun r => map type_str (s_params (r_sig r))) registered /\
+    map ms_returns (contract_methods registered) = map (fun r => ret_str type_str (s_ret (r_sig r))) registered /\
     contract_selectors hash registered = dispatched_selectors hash registered /\
-    dispatched_selectors hash registered = map (fun s => firstn 4 (hash (arc4_sig_str s))) registered.
-Proof. exact contract_selectors_agree_main. Qed.
-Print Assumptions C09_contract_selectors_agree.
+    dispatched_selectors hash registered = map (fun r => firstn 4 (hash (arc4_sig_str (registered_sig r)))) registered.
+Proof. exact contract_selectors_agree_partial_main. Qed.
+Print Assumptions C09_contract_selectors_agree_partial.
+
+(* the program always dispatches on the ARC-4 signature under the REGISTERED name *)
+Theorem C09_dispatched_is_registered :
+  forall r, dispatched_sig_str r = arc4_sig_str (registered_sig r).
+Proof. exact dispatched_is_registered_main. Qed.
+Print Assumptions C09_dispatched_is_registered.
+
+(* REFUTED: add_method_handler(add, overriding_name="foo") — the program dispatches on
+   foo(uint64)uint64, the contract describes add(uint64)uint64 (confirmed on the real code by the harness) *)
+Theorem C09_contract_name_override_refuted :
+  exists r, spec_sig_str (spec_of r) <> dispatched_sig_str r /\
+            spec_sig_str (spec_of r) = "add(uint64)uint64"%string /\
+            dispatched_sig_str r = "foo(uint64)uint64"%string.
+Proof. exact contract_name_override_refuted_main. Qed.
+Print Assumptions C09_contract_name_override_refuted.
 
 (* ---- non-vacuity: a 19-parameter call (16 non-transaction arguments -> tuple; 3 transactions; references) ---- *)
 Definition ex_sig : msig :=
